@@ -371,6 +371,12 @@ def coq_case(c, o):
     if k == "cast":
         if c["dt"] not in (":integer", ":string"):
             return None
+        raw = c["raw"]
+        if c["dt"] == ":integer" and isinstance(raw, str) and \
+                (raw != raw.strip() or "_" in raw or any(ord(ch) > 127 for ch in raw)):
+            # int() also accepts surrounding white space, digit-group underscores and non-ASCII digits;
+            # the model covers sign + ASCII digits (what format writes), the rest is not modelled
+            raise ValueError("unmodelled int() syntax")
         return app("CCast", DT[c["dt"]], _raw(c["raw"]), _res(o, _vout))
     if k == "format":
         return app("CFormat", DT[c["dt"]], _value(c["v"]), copt(c["d"], cstr), cstr(o["r"]))
